@@ -22,6 +22,7 @@ type ElemV struct {
 	Sym   string   // opaque symbolic identity (if C == nil)
 	Field bool
 	B     []*Term // for values decoded from symbolic bytes: the 32 big-endian bytes (exact value, unreduced)
+	Par   *Term   // parity (Bool) when it is a function of other symbolic data
 }
 
 func (*ElemV) ModelName() string { return "elem" }
@@ -172,6 +173,17 @@ func init() {
 			r := new(big.Int).Neg(x.C)
 			return set(in, a[0], &ElemV{C: r.Mod(r, curveN)})
 		}
+		if x.B != nil {
+			// negation is an injective function of the value: modelled with the collision-free function model
+			app := in.hashApply("scalar-negate", nil, x.B)
+			nb := make([]*Term, 32)
+			for i := range nb {
+				nb[i] = app.outByte(in, i)
+			}
+			e := in.freshElem(false, "sneg")
+			e.B = nb
+			return set(in, a[0], e)
+		}
 		return set(in, a[0], in.freshElem(false, "sneg"))
 	})
 	S("InverseNonConst", func(in *Interp, fr *Frame, a []Value) Value {
@@ -189,6 +201,17 @@ func init() {
 		x := in.elem(a[0])
 		if x.C != nil {
 			return BoolConst(x.C.Sign() == 0)
+		}
+		if x.B != nil {
+			if in.param("assumenonzero", 0) == 1 {
+				in.stubsSeen["genericity: digest-derived scalars are non-zero"] = true
+				return False
+			}
+			zs := make([]*Term, len(x.B))
+			for i, b := range x.B {
+				zs[i] = Eq(b, BVConst64(0, 8))
+			}
+			return And(zs...)
 		}
 		return in.elemEq(x, &ElemV{C: new(big.Int)})
 	})
@@ -279,12 +302,18 @@ func init() {
 		if x.C != nil {
 			return BoolConst(x.C.Bit(0) == 1)
 		}
+		if x.Par != nil {
+			return x.Par
+		}
 		return Var("odd("+x.Sym+")", BoolSort)
 	})
 	F("IsOddBit", func(in *Interp, fr *Frame, a []Value) Value {
 		x := in.elem(a[0])
 		if x.C != nil {
 			return BVConst64(uint64(x.C.Bit(0)), 32)
+		}
+		if x.Par != nil {
+			return Ite(x.Par, BVConst64(1, 32), BVConst64(0, 32))
 		}
 		return Ite(Var("odd("+x.Sym+")", BoolSort), BVConst64(1, 32), BVConst64(0, 32))
 	})
@@ -360,6 +389,21 @@ func init() {
 			var r secp256k1.JacobianPoint
 			secp256k1.ScalarBaseMultNonConst(toModN(k.C), &r)
 			in.storeJacConcrete(out, &r)
+			return nil
+		}
+		if k.B != nil {
+			// k*G for a scalar given by (symbolic) bytes: the x coordinate is an injective function of those bytes
+			// (up to the sign of k), modelled with the collision-free function model
+			app := in.hashApply("scalarbasemult-x", nil, k.B)
+			xb := make([]*Term, 32)
+			for i := range xb {
+				xb[i] = app.outByte(in, i)
+			}
+			// coordinates are functions of the scalar: the same scalar bytes give the same symbols (and parity)
+			x := &ElemV{Sym: fmt.Sprintf("pbase.X(app%d)", app.id), Field: true, B: xb}
+			y := &ElemV{Sym: fmt.Sprintf("pbase.Y(app%d)", app.id), Field: true,
+				Par: Eq(Extract(app.outByte(in, 32), 0, 0), BVConst64(1, 1))}
+			in.storeJac(out, x, y, &ElemV{C: big.NewInt(1), Field: true})
 			return nil
 		}
 		in.storeJacOpaque(out, "pbase")
